@@ -978,8 +978,20 @@ impl RefTerm {
                     ));
                 }
             }
+            let cur_pen = self.pen;
             for (i, (m, r)) in self.grid.iter_mut().zip(real_view.iter()).enumerate() {
                 if m.cells != r.cells {
+                    // a blank that should carry the current pen but carries another one
+                    // is a statement about the pen (C08), not about the extent
+                    if let Some(k) = (0..m.cells.len().min(r.cells.len())).find(|&k| m.cells[k] != r.cells[k]) {
+                        let (e, g) = (m.cells[k], r.cells[k]);
+                        if e.0 == ' ' && g.0 == ' ' && e.1 == cur_pen {
+                            return StepRes::Mismatch(format!(
+                                "row {} col {}: blank cell has pen {:?}, expected the current pen {:?} (row {:?})",
+                                i, k, g.1, e.1, r
+                            ));
+                        }
+                    }
                     return StepRes::Mismatch(format!(
                         "row {}: {:?}, expected {:?}",
                         i,
